@@ -175,7 +175,21 @@ class C01:
             blocks = [[i for i, k in enumerate(kinds_) if k in programs.CV_KINDS],
                       [i for i, k in enumerate(kinds_) if k in programs.DM_KINDS and k != "multiscale"]]
             blocks = [b for b in blocks if len(b) >= 2]
-            if blocks:
+            if "disparity" in kinds_ and (not blocks or rnd.random() < 0.5):
+                # ... or a pipeline with one more step than this one
+                extra = rnd.choice([["filter.extra", {"filter_method": "median", "filter_size": 3}],
+                                    ["refinement.extra", {"refinement_method": "vfit"}],
+                                    ["cost_volume_confidence.extra", {"confidence_method": "std_intensity"}]])
+                prior = copy.deepcopy(prog)
+                di = kinds_.index("disparity")
+                if programs.kind_of(extra[0]) == "cost_volume_confidence":
+                    prior.insert(rnd.randint(1, di), extra)
+                else:
+                    mi = kinds_.index("multiscale") if "multiscale" in kinds_ else len(prior)
+                    prior.insert(rnd.randint(di + 1, mi), extra)
+                sc["prior"] = prior
+                sc["history"] = ["prior_check"] + (["prior_run"] if rnd.random() < 0.5 else []) + hist
+            elif blocks:
                 b = rnd.choice(blocks)
                 perm = b[:]
                 for _ in range(5):
